@@ -89,3 +89,46 @@ CONTRACTS[C + "add_track"] = dict(
     variants=[dict(name="not-a-track", params={"self": "CompositionT", "track": "BarT"},
                    ensures=[], raises={"UnexpectedObjectError": "True"}, old={})],
     notes="a composition holding ANY number of tracks; an object without bars is refused with the unexpected-object error")
+
+# lifting to a track: every bar exactly once, in order; the track itself is returned
+CLASSES["LiftTrack"] = {"class": "mingus.containers.track.Track", "fields": {"bars": "list[any]"}}
+CLASSES["LiftBar"] = {"class": "mingus.containers.bar.Bar", "fields": {"bar": "list[any]"}}
+_BSH = ["[]", "[[real,real,NoteContainer]]", "[[real,real,None],[real,real,NoteContainer]]"]
+
+
+def _tsplit():
+    import itertools
+    out = []
+    for k in (0, 1, 2):
+        for combo in itertools.product(_BSH, repeat=k):
+            d = {"field_types": {"self.bars": "[" + ",".join(["LiftBar"] * k) + "]"}}
+            for i, sh in enumerate(combo):
+                d["field_types"]["self.bars.%d.bar" % i] = sh
+            out.append(d)
+    return out
+
+
+_TSPLIT = _tsplit()
+_TBREQ = ("all([all([e[2] is None or all([canon(n.name) and abs(net(n.name)) <= 4 for n in e[2].notes]) for e in b.bar]) "
+          "for b in self.bars])")
+from contracts.cont_note import _SIZE as _TRSIZE  # noqa: E402
+for _nm, _args, _req in (
+        ("transpose", ", interval, up",
+         [("names-up-to-double-accidentals", _TBREQ),
+          ("shorthand-up-to-two-accidentals",
+           "is_interval_shorthand(interval) and len(interval) <= 3 and "
+           "(cnt_sharp(interval, 0, len(interval) - 1) == 0 or cnt_flat(interval, 0, len(interval) - 1) == 0)"),
+          ("size-0-to-11", "0 <= %s and %s <= 11" % (_TRSIZE, _TRSIZE))]),
+        ("augment", "", [("valid-names", "all([all([e[2] is None or all([is_name(n.name) for n in e[2].notes]) for e in b.bar]) for b in self.bars])")]),
+        ("diminish", "", [("valid-names", "all([all([e[2] is None or all([is_name(n.name) for n in e[2].notes]) for e in b.bar]) for b in self.bars])")])):
+    _p = {"self": "LiftTrack"}
+    if _args:
+        _p.update({"interval": "str", "up": "bool"})
+    CONTRACTS[M + _nm] = dict(
+        params=_p, requires=_req, returns="LiftTrack",
+        ensures=[("returns-the-track", "same_object(result, self)")],
+        emits="[(%r, b%s) for b in self.bars]" % (_nm, _args),
+        callee_events={B + _nm: {"name": _nm, "with_receiver": True}},
+        split=_TSPLIT, split_is_domain=True, modifies=["param:self"], properties=["C11"],
+        battery="track_lift_tr" if _args else "track_lift",
+        notes="domain: tracks of 0..2 bars of 0..2 entries each; event view over the bar operation")
